@@ -19,7 +19,9 @@ RULE = ("kw_only dataclasses (1-5 leaves, up to 2 levels of nested dataclasses; 
         "member, empty containers, None); the instance is written with save() (Serializable.save on Serializable subclasses, or the "
         "module-level save() on plain dataclasses) to .json/.yaml/.yml/.pkl in a scratch directory and read back with an EMPTY "
         "command line through {constructor config_path=, --config_path} x {parse() with the un-rooted layout, ArgumentParser with the "
-        "file keyed by the destination}; a fresh parser per parse. Block 1 enumerates every (leaf type shape, pool value) pair as a "
+        "file keyed by the destination}; a fresh parser per parse. A two-step stream saves a second, different instance of the same class "
+        "to the SAME path and parses again in the same process (the second result must be the second instance; 32 fixed + sampled, all "
+        "formats and routes). Block 1 enumerates every (leaf type shape, pool value) pair as a "
         "single-leaf class over all 16 format x route combinations (rotating); block 2 samples trees from VERIF_SEED. "
         "Non-trivial = the file was written and parsed (any outcome); distinct by full case.")
 TRUSTED = [
@@ -117,6 +119,18 @@ def _force_defaults(rng, node):
             _force_defaults(rng, f["cls"])
 
 
+def _revalue(rng, node, tries=6):
+    """the same class tree with another instance (different from the first whenever the pools allow it)"""
+    def once(n):
+        return {"cname": n["cname"], "fields": [dict(f, value=L.rand_value(rng, f["ty"])) if "ty" in f else dict(f, cls=once(f["cls"]))
+                                                for f in n["fields"]]}
+    for _ in range(tries):
+        m = once(node)
+        if intended(m) != intended(node):
+            return m
+    return m
+
+
 def _routes(i):
     return {"fmt": FMTS[i % 4], "via": VIAS[(i // 4) % 2], "api": APIS[(i // 8) % 2], "saver": SAVERS[(i // 16) % 2]}
 
@@ -168,6 +182,18 @@ def gen(tier, seed):
     for i in range(32):
         c = {"schema": fixed}
         c.update(_routes(i))
+        cases.append(c)
+    # two-step stream: save x to p, parse; save y != x to the SAME p, parse again in the same process (must give y).
+    # all 16 format x route combinations on the fixed class, then sampled trees
+    for i in range(32):
+        c = {"schema": fixed, "schema2": _revalue(rng, fixed)}
+        c.update(_routes(i))
+        cases.append(c)
+    for _ in range(150 if tier == "quick" else 2000):
+        counter = [0]
+        sch = _rand_node(rng, counter, rng.choice([0, 0, 1, 2]))
+        c = {"schema": sch, "schema2": _revalue(rng, sch)}
+        c.update({"fmt": rng.choice(FMTS), "via": rng.choice(VIAS), "api": rng.choice(APIS), "saver": rng.choice(SAVERS)})
         cases.append(c)
     # block 2: random trees
     n = 1500 if tier == "quick" else 15000
@@ -253,53 +279,62 @@ def run_impl(cases):
         for ci, case in enumerate(cases):
             reset_simple_parsing_state()
             path = os.path.join(scratch, f"c{ci}.{case['fmt']}")
-            st = {"stage": "build"}
+            ns = {}
+            steps = [case["schema"]] + ([case["schema2"]] if case.get("schema2") else [])
+            obs_steps = []
+            for si, schema in enumerate(steps):
+                st = {"stage": "build"}
 
-            def go():
-                from simple_parsing import ArgumentParser, parse
-                from simple_parsing.helpers.serialization import save, to_dict
+                def go():
+                    from simple_parsing import ArgumentParser, parse
+                    from simple_parsing.helpers.serialization import save, to_dict
 
-                ns = {}
-                exec(compile(source(case), "<c15>", "exec", dont_inherit=True), ns)
-                root = ns[case["schema"]["cname"]]
-                x = eval(compile(instance_src(case["schema"]), "<c15-inst>", "eval", dont_inherit=True), ns)
-                st["built"] = _tree_of(canon(x))
-                st["stage"] = "save"
-                if case["api"] == "parse":
-                    if case["saver"] == "method":
-                        x.save(path)
+                    if si == 0:
+                        exec(compile(source(case), "<c15>", "exec", dont_inherit=True), ns)
+                    root = ns[schema["cname"]]
+                    x = eval(compile(instance_src(schema), "<c15-inst>", "eval", dont_inherit=True), ns)
+                    st["built"] = _tree_of(canon(x))
+                    st["stage"] = "save"
+                    if case["api"] == "parse":
+                        if case["saver"] == "method":
+                            x.save(path)
+                        else:
+                            save(x, path)
                     else:
-                        save(x, path)
-                else:
-                    save({"cfg": x.to_dict() if case["saver"] == "method" else to_dict(x)}, path)
-                st["stage"] = "parse"
-                if case["api"] == "parse":
-                    if case["via"] == "ctor":
-                        got = parse(root, config_path=path, args=[])
+                        save({"cfg": x.to_dict() if case["saver"] == "method" else to_dict(x)}, path)
+                    st["stage"] = "parse"
+                    # a fresh parser for every parse
+                    if case["api"] == "parse":
+                        if case["via"] == "ctor":
+                            got = parse(root, config_path=path, args=[])
+                        else:
+                            got = parse(root, args=["--config_path", path], add_config_path_arg=True)
                     else:
-                        got = parse(root, args=["--config_path", path], add_config_path_arg=True)
-                else:
-                    if case["via"] == "ctor":
-                        p = ArgumentParser(config_path=path)
-                        p.add_arguments(root, "cfg")
-                        got = p.parse_args([]).cfg
-                    else:
-                        p = ArgumentParser(add_config_path_arg=True)
-                        p.add_arguments(root, "cfg")
-                        got = p.parse_args(["--config_path", path]).cfg
-                c = canon(got)
-                if c.get("t") != "dc" or c.get("c") != case["schema"]["cname"]:
-                    return {"t": "other", "c": str(c.get("c")), "v": str(c)[:200]}
-                return _tree_of(c)
+                        if case["via"] == "ctor":
+                            p = ArgumentParser(config_path=path)
+                            p.add_arguments(root, "cfg")
+                            got = p.parse_args([]).cfg
+                        else:
+                            p = ArgumentParser(add_config_path_arg=True)
+                            p.add_arguments(root, "cfg")
+                            got = p.parse_args(["--config_path", path]).cfg
+                    c = canon(got)
+                    if c.get("t") != "dc" or c.get("c") != schema["cname"]:
+                        return {"t": "other", "c": str(c.get("c")), "v": str(c)[:200]}
+                    return _tree_of(c)
 
-            r = outcome_of(go)
+                reset_simple_parsing_state()
+                r = outcome_of(go)
+                obs_steps.append({"stage": st["stage"], "built_ok": st.get("built") == intended(schema),
+                                  "outcome": r[:2] if r[0] != "ok" else ["ok"], "inst": r[1] if r[0] == "ok" else None,
+                                  "msg": (r[2][:200] if len(r) > 2 and isinstance(r[2], str) else "") if r[0] != "ok" else ""})
             try:
                 os.remove(path)
             except OSError:
                 pass
-            o = {"stage": st["stage"], "built_ok": st.get("built") == intended(case["schema"]),
-                 "outcome": r[:2] if r[0] != "ok" else ["ok"], "inst": r[1] if r[0] == "ok" else None,
-                 "msg": (r[2][:200] if len(r) > 2 and isinstance(r[2], str) else "") if r[0] != "ok" else ""}
+            o = obs_steps[0]
+            if len(obs_steps) > 1:
+                o["step2"] = obs_steps[1]       # the SAME path, overwritten by the second save(), parsed again in the same process
             out.append(o)
     finally:
         shutil.rmtree(scratch, ignore_errors=True)
@@ -335,12 +370,12 @@ def _diffs(node, got, path=""):
     return out
 
 
-def py_spec(case, obs):
+def _spec_step(case, schema, obs):
     if not obs["built_ok"] and obs["stage"] != "build":
         return "harness: the instance built from the generated source is not the intended one"
     if obs["outcome"][0] != "ok":
         return f"{obs['stage']} ended with {obs['outcome']} ({obs['msg']}) [{case['fmt']}, {case['via']}, {case['api']}]"
-    d = _diffs(effective(case["schema"]), obs["inst"])
+    d = _diffs(effective(schema), obs["inst"])
     if d:
         p, f, g = d[0]
         if f is None:
@@ -350,16 +385,22 @@ def py_spec(case, obs):
     return None
 
 
-def _item_kinds(v):
-    return sorted({x.get("t") for x in v.get("v", [])}) if isinstance(v.get("v"), list) else []
+def py_spec(case, obs):
+    r = _spec_step(case, case["schema"], obs)
+    if r or not case.get("schema2"):
+        return r
+    r = _spec_step(case, case["schema2"], obs["step2"])
+    if r:
+        return "second save() to the same path, parsed again in the same process: " + r
+    return None
 
 
-def signature(case, obs, reason):
+def _sig_step(schema, obs):
     if not obs["built_ok"] and obs["stage"] != "build":
         return "harness:instance-not-built"
     if obs["outcome"][0] != "ok":
         return f"{obs['stage']}:" + ":".join(str(x) for x in obs["outcome"][:2])
-    d = _diffs(effective(case["schema"]), obs["inst"])
+    d = _diffs(effective(schema), obs["inst"])
     if not d:
         return "other"
     p, f, g = d[0]
@@ -369,10 +410,26 @@ def signature(case, obs, reason):
     if v["t"] == "none" and t["k"] == "opt" and f["default"] is not None and g == f["default"]:
         return "null-saved:definition-default-back"
     if v["t"] in ("list", "tuple") and g.get("t") == v["t"] and len(g["v"]) == len(v["v"]):
-        bad = sorted({a["t"] + "->" + b["t"] for a, b in zip(v["v"], g["v"]) if a != b})
-        if bad and all(x in ("enum->str", "path->str") for x in bad):
-            return "items-stay-str:" + "+".join(x.split("-")[0] for x in bad)
+        pairs = [(a, b) for a, b in zip(v["v"], g["v"]) if a != b]
+        # exactly the saved items, with Enum / Path items as their str encodings
+        if pairs and all(a["t"] in ("enum", "path") and b == {"t": "str", "v": a["v"]} for a, b in pairs):
+            return "items-stay-str:" + "+".join(sorted({a["t"] for a, _ in pairs}))
     return "leaf:" + _shape(t) + ":" + v["t"] + "->" + str(g.get("t"))
+
+
+KNOWN_CLASSES = ("null-saved:", "items-stay-str:")
+
+
+def signature(case, obs, reason):
+    if _spec_step(case, case["schema"], obs) or not case.get("schema2"):
+        return _sig_step(case["schema"], obs)
+    o2 = obs["step2"]
+    sig = _sig_step(case["schema2"], o2)
+    if sig.startswith(KNOWN_CLASSES):
+        return sig
+    if o2["outcome"][0] == "ok" and o2["inst"] == obs["inst"] and o2["inst"] != intended(case["schema2"]):
+        return "step2:first-instance-back"
+    return "step2:" + sig
 
 
 def nontrivial(case, obs):
@@ -394,7 +451,7 @@ def _depth(node):
 def features(case, obs):
     leaves = list(_leaves(case["schema"]))
     d = {"fmt": case["fmt"], "via": case["via"], "api": case["api"], "saver": case["saver"], "depth": _depth(case["schema"]),
-         "nleaves": min(len(leaves), 8), "outcome": obs["outcome"][0], "first_leaf": _shape(leaves[0]["ty"])[:40]}
+         "nleaves": min(len(leaves), 8), "outcome": obs["outcome"][0], "steps": 2 if case.get("schema2") else 1, "first_leaf": _shape(leaves[0]["ty"])[:40]}
     return d
 
 
@@ -438,13 +495,27 @@ def _inst_coq(tree):
     return "(INode " + clist(fs) + ")"
 
 
-def to_coq(case, obs):
+def _obs_coq(obs):
     if obs["outcome"][0] == "ok":
         inst = obs["inst"]
-        ob = "(Ok " + (_inst_coq(inst) if isinstance(inst, list) else f"(IOpaque {cstr('not-an-instance')})") + ")"
-    else:
-        ob = outcome(obs["outcome"])
-    return (f"mkcase {_schema_coq(effective(case['schema']))} {_inst_coq(intended(case['schema']))} {cstr('.' + case['fmt'])} {ob}")
+        return "(Ok " + (_inst_coq(inst) if isinstance(inst, list) else f"(IOpaque {cstr('not-an-instance')})") + ")"
+    return outcome(obs["outcome"])
+
+
+def to_coq(case, obs):
+    step2 = "None"
+    if case.get("schema2"):
+        step2 = "(Some " + cpair(_inst_coq(intended(case["schema2"])), _obs_coq(obs["step2"])) + ")"
+    return (f"mkcase {_schema_coq(effective(case['schema']))} {_inst_coq(intended(case['schema']))} {cstr('.' + case['fmt'])} "
+            f"{_obs_coq(obs)} {step2}")
+
+
+def _both(case, f):
+    """apply the same structural edit to the class tree of both steps"""
+    c = dict(case, schema=f(case["schema"]))
+    if case.get("schema2"):
+        c["schema2"] = f(case["schema2"])
+    return c
 
 
 def shrink(case):
@@ -452,11 +523,13 @@ def shrink(case):
     fs = node["fields"]
     if len(fs) > 1:
         for i in range(len(fs)):
-            yield dict(case, schema={"cname": node["cname"], "fields": fs[:i] + fs[i + 1:]})
+            yield _both(case, lambda n, i=i: {"cname": n["cname"], "fields": n["fields"][:i] + n["fields"][i + 1:]})
     for i, f in enumerate(fs):
         if "cls" in f:
-            # hoist the nested class
-            yield dict(case, schema=f["cls"])
+            yield _both(case, lambda n, i=i: n["fields"][i]["cls"])      # hoist the nested class
+    if case.get("schema2"):
+        yield {k: v for k, v in case.items() if k != "schema2"}
+        yield dict({k: v for k, v in case.items() if k != "schema2"}, schema=case["schema2"])
     for k, v in (("fmt", "json"), ("via", "ctor"), ("api", "parse"), ("saver", "function")):
         if case[k] != v:
             yield dict(case, **{k: v})
